@@ -8,6 +8,7 @@ import (
 	"os/exec"
 	"path/filepath"
 	"runtime"
+	"runtime/pprof"
 	"sort"
 	"strconv"
 	"strings"
@@ -49,7 +50,13 @@ func cmdCheck(id string, args []string) int {
 	noReplay := fs.Bool("no-replay", false, "skip native replays (debugging only)")
 	noEvidence := fs.Bool("no-evidence", false, "do not write the evidence file")
 	paramsF := fs.String("params", "", "run only the case with these params, e.g. 3,3,0")
+	cpuprof := fs.String("cpuprofile", "", "write cpu profile")
 	fs.Parse(args)
+	if *cpuprof != "" {
+		f, _ := os.Create(*cpuprof)
+		pprof.StartCPUProfile(f)
+		defer pprof.StopCPUProfile()
+	}
 	seed, _ := strconv.ParseInt(os.Getenv("VERIF_SEED"), 10, 64)
 	t0 := time.Now()
 	buildExternals()
@@ -296,9 +303,9 @@ func cmdCheck(id string, args []string) int {
 	}
 
 	wall := time.Since(t0).Seconds()
-	fmt.Fprintf(os.Stderr, "%s %s: cases=%d paths=%d (complete=%d pruned=%d violation=%d unsupported=%d budget=%d unknown=%d infeasible=%d) decisions=%d obligations=%d discharged=%d solver: q=%d cache=%d %.1fs unk=%d  load=%.1fs explore=%.1fs wall=%.1fs exhaustive=%v timedout=%v\n",
+	fmt.Fprintf(os.Stderr, "%s %s: cases=%d paths=%d (complete=%d pruned=%d violation=%d unsupported=%d budget=%d unknown=%d infeasible=%d) decisions=%d obligations=%d discharged=%d solver: q=%d inc=%d/%d cache=%d %.1fs(model %.1fs) unk=%d  load=%.1fs explore=%.1fs wall=%.1fs exhaustive=%v timedout=%v\n",
 		cs.Property, *tier, len(cases), paths, tot[stComplete], tot[stAssumeFalse], tot[stViolation], tot[stUnsupported], tot[stBudget], tot[stUnknown], tot[stInfeasible],
-		decisions, obligations, discharged, e.stats.Queries, e.stats.CacheHits, e.stats.Seconds, e.stats.UnknownN, loadS, exploreS, wall, exhaustive, e.timedOut)
+		decisions, obligations, discharged, e.stats.Queries, e.incHits, e.incMisses, e.stats.CacheHits, e.stats.Seconds, e.stats.ModelSeconds, e.stats.UnknownN, loadS, exploreS, wall, exhaustive, e.timedOut)
 	for _, k := range sortedKeys(reasons) {
 		if !strings.Contains(k, "violation:") || *verbose {
 			fmt.Fprintf(os.Stderr, "  %5d × %s\n", reasons[k], k)
